@@ -25,7 +25,7 @@ def run(ck):
     q = ck.tier == "quick"
     res = ck.tlc_model("ec/MC_Functional", "ec/MC_Functional.cfg", workers=2, timeout=600)
     p1 = os.path.join(ck.work, "fn-trace.ndjson")
-    ck.harness(["fn-trace", "--seed", ck.seed, "--seeds", 30 if q else 1500, "--out", p1], timeout=3000)
+    ck.harness(["fn-trace", "--seed", ck.seed, "--seeds", 80 if q else 1500, "--out", p1], timeout=3000)
     validate(ck, p1, lambda ev: {"cmd": "fn-trace", "seed": ck.seed})
     p2 = os.path.join(ck.work, "fn-push-trace.ndjson")
     ck.harness(["fn-push-trace", "--seed", ck.seed, "--runs", 300 if q else 20000, "--out", p2], timeout=3000)
